@@ -1118,6 +1118,51 @@ def r10_field_semantics(ctx, C):
         ctx.violation("UNANALYSABLE|field|IsOdd", loc, str(e)[:300])
 
 
+# ---- R11: no failure outside the documented failing cases -----------------------------------------------------------------
+# instructions whose reference row does not mention a failure but which can fail for reasons the reference states elsewhere
+UNDOC_FAIL_OK = {}
+
+
+def r11_no_undocumented_failure(ctx, C):
+    F = C.F
+    adt = F.adt(r"^miden_assembly::ast::nodes::Instruction$")
+    idx = userdocs.variant_index(adt["variants"])
+    n = 0
+    for row in userdocs.rows():
+        if re.search(r"[Ff]ail", row.notes):
+            continue
+        # the operand domain of these tables is the whole field / any stack; u32 rows have "Undefined if" domains and are decided
+        # by R9, memory / advice / Merkle instructions fail for reasons stated in their sections' prose
+        if not (row.file.endswith("field_operations.md") or row.file.endswith("stack_manipulation.md")):
+            continue
+        for form in row.forms:
+            base, imm = userdocs.form_key(form)
+            vname = idx.get(base + "imm") if imm else idx.get(base)
+            if vname is None or vname in PROC_VARIANTS or vname not in C.L:
+                continue
+            try:
+                res = C.results(vname)
+            except Exception:
+                continue
+            n += 1
+            ctx.inst(key=vname, nontrivial=True)
+            for lp, rs in res:
+                if not isinstance(rs, list):
+                    continue
+                ctx.oblig(True)
+                for r in rs:
+                    if r["outcome"][0] != "err" or not path_feasible(lp["guards"] + r["guards"]):
+                        continue
+                    err = r["outcome"][2] if len(r["outcome"]) > 2 else "?"
+                    key = "undocumented-failure|%s|%s" % (vname, err)
+                    if (vname, err) in UNDOC_FAIL_OK:
+                        continue
+                    ctx.oblig(False)
+                    ctx.violation(key, "%s:%d" % (row.file, row.line), "%s can fail with %s (operation %d of %s, conditions %s) although its reference row documents no failing case"
+                                  % (form, err, r["outcome"][1], [o[0] for o in lp["ops"]][:10], [(str(g[0])[:50], g[1]) for g in r["guards"]][:3]))
+    ctx.floor("rows-without-documented-failure", n, 25)
+
+
 def run(ctx, F):
     ctx.trusted += ["rustc MIR via mirfacts", "mirsym; lowering extractor (vlib/lowering.py); operation model (vlib/procmodel.py)",
                     "docs/src/user_docs/assembly tables as oracle (parsed at run time); family formulas and FAILING/RANGES tables transcribed from the same docs"]
@@ -1134,4 +1179,5 @@ def run(ctx, F):
     ctx.run_rule("C05-R8", "compiler-inserted arithmetic checks in operation handlers cannot fire inside the documented operand domains (interval analysis with path guards)", r8_handler_arithmetic, F)
     ctx.run_rule("C05-R9", "u32 instructions: on every composed path inside the documented operand domain each output equals the reference function of u32_operations.md (canonical integer normal form: floor/mod/quotient/borrow/AND atoms), failures are the documented ones", r9_u32_semantics, C)
     ctx.run_rule("C05-R10", "pow2 (all 64 exponents), is_odd and the quadratic-extension instructions: composed results equal the definitions in F_p[x]/(x^2 - x + 2) and the documented formulas; ext2inv/ext2div return the verified inverse in the documented coefficient order", r10_field_semantics, C)
+    ctx.run_rule("C05-R11", "an instruction whose reference row documents no failing case has no feasible failing path in its composed lowering", r11_no_undocumented_failure, C)
     ctx.run_rule("C05-R6", "minimum stack depth: shift_left pops/decrements only when depth > 16; depth writers confined", r6_min_depth, F)
